@@ -80,8 +80,9 @@ class C18:
                 # one producer hands over garbage: the push raises, the
                 # caller carries on
                 b.emit('acc_push_bad', {'acc': accs[ai],
-                                        'what': rng.choice(['str', 'none',
-                                                            'obj'])},
+                                        'what': rng.choice([
+                                            'str', 'none', 'obj', 'complex',
+                                            'colour'])},
                        tags={'k': 'push-bad', 'bad': True})
             b.emit('acc_push', {'acc': accs[ai], 'frm': frm},
                    tags={'k': 'push', 'producer': p})
